@@ -282,6 +282,18 @@ def _table_sweep_case(case, tier, seed):
         tag = 'public' if tab is pt.elements else 'private'
         for el in tab:
             if el.number == 0:
+                # the neutron: reachable by its own symbol and name (lower-case n is not nitrogen), mass of the embedded constant
+                res['claims'] += 1
+                from periodictable.constants import neutron_mass
+                try:
+                    ok0 = tab.symbol('n') is el and tab.name('neutron') is el and tab.isotope('1-n') is el[1] and tab.symbol('N').number == 7 and el.mass == neutron_mass
+                    note = ''
+                except Exception as e:   # noqa: BLE001
+                    ok0, note = False, '%s: %s' % (type(e).__name__, e)
+                if ok0:
+                    res['discharged'] += 1
+                else:
+                    bad('lookup_by_symbol_and_name[n|%s]' % tag, note or 'another object', 'the neutron')
                 continue
             if el.number in el_mass:
                 res['claims'] += 1
@@ -346,6 +358,34 @@ def _table_sweep_case(case, tier, seed):
                 res['discharged'] += 1
             else:
                 bad('density[%s|%s]' % (el.symbol, tag), el.density, d)
+            # n = rho N_A / m and n d^3 = 1e24, or both unknown (never an error), for the element and its isotopes
+            from periodictable.constants import avogadro_number
+            for atom in [el] + [el[a] for a in el.isotopes[:3]]:
+                res['claims'] += 1
+                try:
+                    n_, d_ = atom.number_density, atom.interatomic_distance
+                    if d is None:
+                        ok2 = n_ is None and d_ is None
+                    else:
+                        ok2 = abs(n_ - atom.density * avogadro_number / atom.mass) <= 1e-12 * n_ and abs(n_ * d_ ** 3 - 1e24) <= 1e-9 * 1e24
+                    note = (n_, d_)
+                except Exception as e:   # noqa: BLE001
+                    ok2, note = False, '%s: %s' % (type(e).__name__, e)
+                if ok2:
+                    res['discharged'] += 1
+                else:
+                    bad('number_density_and_distance[%s|%s]' % (atom, tag), note, 'n = rho N_A/m, n d^3 = 1e24 (or None, None)')
+            # the row is reachable by the symbol and the name the tables use for it
+            res['claims'] += 1
+            try:
+                ok3 = tab.symbol(el.symbol) is el and tab.name(el.name) is el and all(tab.isotope('%d-%s' % (a, el.symbol)) is el[a] for a in el.isotopes[:2])
+                note = ''
+            except Exception as e:   # noqa: BLE001
+                ok3, note = False, '%s: %s' % (type(e).__name__, e)
+            if ok3:
+                res['discharged'] += 1
+            else:
+                bad('lookup_by_symbol_and_name[%s|%s]' % (el.symbol, tag), note or 'another object', 'the same element / isotope')
     res['queries'] = res['distinct'] = res['claims']
     res['samples'] = [dict(rows_checked=res['claims'], note='ground sweep, exhaustive over the embedded rows; not a solver claim')]
     return res
